@@ -4,20 +4,30 @@ open Oslo Oslo.Exc Oslo.Proto
 
 /-
 Request:  run <flag 0|1> <path absent|file|dir> <excs> <body>
-  excs : comma list, one `needsArgs:isExc:priorLen` per declared exception id 0..n-1
-         (class id = index; the initial traceback is `priorLen` frames O<priorLen-1>..O0)
+  excs : comma list, one `needsArgs:isExc:priorLen:cause:suppress` per declared exception id 0..n-1
+         (class id = index; the initial traceback is `priorLen` frames O<priorLen-1>..O0; cause is N or
+         a declared id; suppress 0|1 is `__suppress_context__`)
   body : prefix notation, tokens separated by one blank:
          nop | rc k | rn k | sr 0|1 | nest 0|1 B | fr 0|1 | cap | seq A B | h k B
-         | fx bound acc rais B | fc bound acc rais k | rp d|n|r<k> B | rwc N|none|<k>
+         | fx form acc rais B | fc form acc rais k | rp d|n|r<k> B | rwc N|none|<k>
+           form: 0 function, 1 instance method, 2/3 classmethod via class/instance,
+                 4/5 staticmethod via class/instance
          | nt 0|1 B LATE | hnt k 0|1 B LATE
          acc  = `-` or k,k,…      rais = `-` or k>k',…
 Reply (blank separated):
   out=ok|R:<who> tb=<tags> cause=-|N|<who> log=-|<who>/<tags>;… path=… ctx=<reraise>:<type>:<value>:<tags>
   tbs=<tags>|<tags>|…          (final traceback of every declared exception)
+  chain=<cause>/<suppress>|…   (final __cause__ / __suppress_context__ of every declared exception)
 -/
 
 def parseBool : String → Option Bool
   | "0" => some false | "1" => some true | _ => none
+
+def parseForm : String → Option FilterForm
+  | "0" => some .func | "1" => some .method
+  | "2" => some (.classMethod false) | "3" => some (.classMethod true)
+  | "4" => some (.staticMethod false) | "5" => some (.staticMethod true)
+  | _ => none
 
 def parseIds (s : String) : Option (List Nat) :=
   if s = "-" then some [] else (s.splitOn ",").mapM String.toNat?
@@ -60,13 +70,13 @@ def parseBody : Nat → List String → Option (Body × List String)
       let (body, r) ← parseBody fuel r
       pure (.handle k body, r)
     | "fx" :: bound :: acc :: rais :: r => do
-      let bound ← parseBool bound
+      let bound ← parseForm bound
       let acc ← parseIds acc
       let rais ← parsePairs rais
       let (body, r) ← parseBody fuel r
       pure (.filterCtx bound ⟨acc, rais⟩ body, r)
     | "fc" :: bound :: acc :: rais :: k :: r => do
-      let bound ← parseBool bound
+      let bound ← parseForm bound
       let acc ← parseIds acc
       let rais ← parsePairs rais
       let k ← k.toNat?
@@ -92,9 +102,18 @@ def parseBody : Nat → List String → Option (Body × List String)
       else x.toNat?.map (fun k => (.rwc (some (some k)), r))
     | _ => none
 
-def parseExc (s : String) : Option (Bool × Bool × Nat) :=
+structure ExcSpec where
+  needsArgs : Bool
+  isExc : Bool
+  prior : Nat
+  cause : Option Nat
+  suppress : Bool
+
+def parseExc (s : String) : Option ExcSpec :=
   match s.splitOn ":" with
-  | [a, b, n] => do pure ((← parseBool a), (← parseBool b), (← n.toNat?))
+  | [a, b, n, c, sp] => do
+    let cause ← if c = "N" then some none else c.toNat?.map some
+    pure ⟨(← parseBool a), (← parseBool b), (← n.toNat?), cause, (← parseBool sp)⟩
   | _ => none
 
 def parsePath : String → Option PathKind
@@ -134,7 +153,9 @@ def showRes (n : Nat) (r : Res) : String :=
     | none => "N" | some c => showCls c
   let ctx := s!"{if r.ctx.reraise then 1 else 0}:{ty}:{showOptWho n h r.ctx.value}:{showTb r.ctx.tb}"
   let tbs := String.intercalate "|" ((List.range n).map fun i => showTb (h.tb i))
-  s!"{out} log={log} path={showPath r.st.path} ctx={ctx} tbs={tbs}"
+  let chain := String.intercalate "|" ((List.range n).map fun i =>
+    s!"{showOptWho n h (h.cause i)}/{if h.suppress i then 1 else 0}")
+  s!"{out} log={log} path={showPath r.st.path} ctx={ctx} tbs={tbs} chain={chain}"
 
 def handle : List String → String
   | ["run", flag, path, excs, body] =>
@@ -144,18 +165,25 @@ def handle : List String → String
       match parseBody (toks.length + 1) toks with
       | some (b, []) =>
         let n := excs.length
-        if n = 0 ∨ b.maxId ≥ n then "bad-request" else
+        if n = 0 ∨ b.maxId ≥ n ∨ excs.any (fun x => match x.cause with
+            | some c => c ≥ n
+            | none => false) then "bad-request" else
         let arr := excs.toArray
         -- ids below n are the declared exceptions; the two lookups below are never reached
         -- with i ≥ n before allocation (every id in the body was checked against n)
         let heap : Heap := {
           cls := fun i => match arr[i]? with
-            | some (na, ie, _) => .user i na ie
+            | some x => .user i x.needsArgs x.isExc
             | none => .runtimeError
           tb := fun i => match arr[i]? with
-            | some (_, _, pl) => priorTb pl
+            | some x => priorTb x.prior
             | none => []
-          cause := fun _ => none
+          cause := fun i => match arr[i]? with
+            | some x => x.cause
+            | none => none
+          suppress := fun i => match arr[i]? with
+            | some x => x.suppress
+            | none => false
           next := n }
         showRes n (run flag b ⟨heap, [], [], path⟩)
       | _ => "bad-request"
